@@ -3,6 +3,7 @@ import TsRsVerif.Generated.Tables
 import TsRsVerif.Lemmas.SortedStr
 import TsRsVerif.Lemmas.MergeLemmas
 import TsRsVerif.Lemmas.DedupLemmas
+import TsRsVerif.Lemmas.HistoryMulti
 /-!
 # C13 — bindings are a deterministic function of the source and configuration
 
@@ -93,5 +94,15 @@ theorem C13_blocks_perm (g₁ g₂ : List (Str × Str)) (hp : g₁.Perm g₂) (h
   refine Merge.sorted_perm_eq s₁ s₂ ?_
   simp only [List.append_nil] at p₁ p₂
   exact p₁.trans ((List.reverse_perm _).trans (hp.trans ((List.reverse_perm _).symm.trans p₂.symm)))
+
+/-- **thread schedules**: what several test threads export (each holds the registry lock for a whole `export_and_merge`) is an
+interleaving of their operation lists; any two interleavings are permutations of one another, so they end in file systems that
+agree at every location — the directory is a function of the set of exports, not of the schedule. -/
+theorem C13_schedule_independent (slots : List Slot) (w : World) (sched₁ sched₂ : List Op) (hperm : sched₁.Perm sched₂)
+    (hs : SlotsOK w.fs slots) (hok : OpsOK slots sched₁)
+    (hp : w.poisoned = false) (hreg : ∀ s ∈ slots, Export.regGet w.reg (Export.regKey s.1) = none) :
+    ∃ w₁ w₂, runOps slots w sched₁ = (w₁, true) ∧ runOps slots w sched₂ = (w₂, true) ∧
+      w₁.fs.cwd = w₂.fs.cwd ∧ ∀ l, w₁.fs.lookup l = w₂.fs.lookup l :=
+  multi_order_independent slots w sched₁ sched₂ hperm hs hok hp hreg
 
 end TsRs
